@@ -105,7 +105,8 @@ def _parse(r):
     m = _RE_SIMDONE.search(out)
     if m and not r.generated:
         r.generated = int(m.group(1))
-    for m in _RE_COV.finditer(out):
+    k = out.rfind("The coverage statistics at")        # interim dumps (one per minute) must not be summed
+    for m in _RE_COV.finditer(out[k:] if k >= 0 else out):
         name = m.group(1)
         d, g = int(m.group(3)), int(m.group(4))
         od, og = r.coverage.get(name, (0, 0))
@@ -229,7 +230,8 @@ def sany(path):
     return ok, p.stdout
 
 
-def validate_traces(module, cfg_file, traces, scratch, parts=8, hdr=None, timeout=1800, tag="VERDICT", extra_env=None):
+def validate_traces(module, cfg_file, traces, scratch, parts=8, hdr=None, timeout=1800, tag="VERDICT", extra_env=None,
+                    heap=None, max_procs=16):
     """Trace validation in batches: `traces` is a list of dicts with unique integer 'id'.  They are split into
     `parts` JSON files, each checked by its own single-worker TLC (deterministic trace specs are linear).  Returns
     ({id: (events_consumed, verdict)}, [TLCResult]).  A trace without verdict line is a machinery failure."""
@@ -252,7 +254,9 @@ def validate_traces(module, cfg_file, traces, scratch, parts=8, hdr=None, timeou
             env.update(extra_env)
         jobs.append(dict(module=module, cfg_file=cfg_file, workers=1, env=env, scratch=d, timeout=timeout,
                          allow_violation=False))
-    results = run_parallel(jobs, max_procs=16)
+        if heap:
+            jobs[-1]["heap"] = heap
+    results = run_parallel(jobs, max_procs=max_procs)
     verdicts = {}
     for r in results:
         for t in tagged(r, tag):
